@@ -93,13 +93,13 @@ def execute(case, t):
     if ref is None:
         t.discard("run does not complete")
     timeout = max(120.0, 200.0 * ref["wall"])
-    tr0, left, to = plain_run(cfg, 1, timeout)
+    tr0, left, to = plain_run(cfg, 1, timeout, t)
     _reap(left)
     if to or not tr0.ok:
         raise Violation(f"the run completes with a synchronous pool but {'hangs' if to else 'raises ' + type(tr0.exc).__name__} with the library's own single-process pool")
     d0 = _digest_of(tr0)
     # (a) repeat
-    tr1, left, to = plain_run(cfg, 1, timeout)
+    tr1, left, to = plain_run(cfg, 1, timeout, t)
     _reap(left)
     if to or not tr1.ok or _digest_of(tr1) != d0:
         raise Violation("two runs on equal inputs from equal RNG states returned different results")
@@ -122,7 +122,7 @@ def execute(case, t):
                 # worker count is only honoured when multiprocessing is enabled; the request itself is still passed on
                 run_cfg = dict(cfg, num_processors=v["workers"])
                 if v["mp"]:
-                    tr, left, to = plain_run(run_cfg, v["workers"], timeout)
+                    tr, left, to = plain_run(run_cfg, v["workers"], timeout, t)
                 else:
                     tr, left, to = _plain_run_mp_off(run_cfg, timeout)
             log = b""
